@@ -274,6 +274,12 @@ class Check:
                     changed += [t.gen_constants()]
             if self.pid == "C20":
                 changed += [load("gen_footprints").main()["changed"]]
+            if self.pid in ("C12", "C03"):
+                # loop functions of pyrepseq/distance.py re-translated into Lean list comprehensions (C12_source_*, C03_source_*)
+                changed += [load("gen_loops").main()]
+            if self.pid in ("C02", "C06", "C16"):
+                # formulas of pyrepseq/stats.py re-translated into Lean definitions (Cxx_source_* prove they are the models)
+                changed += [load("gen_formulas").gen_group("pc" if self.pid != "C16" else "richness")]
             if any(changed):
                 self.notes.append(f"Generated/*.lean rewritten from /repo: {changed}")
         except Exception as e:  # noqa
